@@ -108,20 +108,25 @@ Section RuleProofs.
   Lemma upd_length0 : forall l k f, length (upd l k f) = length l.
   Proof. induction l as [|x l IH]; intros [|k] f; cbn [upd length]; try reflexivity; rewrite IH; reflexivity. Qed.
 
-  Definition bud_le (b1 b : option nat) (used : nat) : Prop :=
-    match b, b1 with Some n, Some n1 => (n1 + used <= n)%nat | None, None => True | _, _ => False end.
+  Definition bud_le (b1 b : option alloc) (used : nat) : Prop :=
+    match b, b1 with Some a, Some a1 => (a_bud a1 + used <= a_bud a)%nat | None, None => True | _, _ => False end.
+  Lemma newslot_bud a len a' : newslot a len = Some a' -> a_bud a' = a_bud a.
+  Proof. unfold newslot. destruct (a_free a); [destruct (Nat.ltb (a_cap a) len); [discriminate|]|]; intros E; injection E as <-; reflexivity. Qed.
   Lemma do_inserts_measure : forall acts l pos hw hp b l1 pos1 hw1 hp1 b1 dead, do_inserts adv acts l pos hw hp b = (l1, pos1, hw1, hp1, b1, dead) ->
     (length l1 - pos1 = length l - pos)%nat /\ (pos <= length l -> pos1 <= length l1)%nat /\ (length l <= length l1)%nat /\ (length l1 - length l = pos1 - pos)%nat /\ (pos <= pos1)%nat
-    /\ bud_le b1 b (length l1 - length l) /\ (b = None -> dead = false).
+    /\ bud_le b1 b (length l1 - length l) /\ (b = None -> dead = false /\ b1 = None).
   Proof.
     induction acts as [|a rest IH]; intros l pos hw hp b l1 pos1 hw1 hp1 b1 dead H; cbn [RuleModel.do_inserts] in H.
-    - injection H as <- <- <- <- <- <-. do 5 (split; [lia|]). split; [destruct b; cbn; [lia|exact I] | reflexivity].
+    - injection H as <- <- <- <- <- <-. do 5 (split; [lia|]). split; [destruct b; cbn; [lia|exact I] | intros ->; split; reflexivity].
     - destruct a; try exact (IH _ _ _ _ _ _ _ _ _ _ _ H).
-      destruct b as [n|].
-      + destruct (Nat.leb_spec n 1) as [Hn|Hn].
+      destruct b as [al|].
+      + destruct (Nat.leb_spec (a_bud al) 1) as [Hn|Hn].
         * injection H as <- <- <- <- <- <-. do 5 (split; [lia|]). split; [cbn; lia | discriminate].
-        * specialize (IH _ _ _ _ _ _ _ _ _ _ _ H). rewrite insert_at_length in IH. destruct IH as [I1 [I2 [I3 [I4 [I5 [I6 I7]]]]]].
-          do 5 (split; [lia|]). split; [unfold bud_le in *; destruct b1 as [n1|]; [lia|exact I6] | discriminate].
+        * destruct (newslot (set_bud al (a_bud al - 1)) (length l)) as [a'|] eqn:En.
+          -- apply newslot_bud in En. cbn [set_bud a_bud] in En.
+             specialize (IH _ _ _ _ _ _ _ _ _ _ _ H). rewrite insert_at_length in IH. destruct IH as [I1 [I2 [I3 [I4 [I5 [I6 I7]]]]]].
+             do 5 (split; [lia|]). split; [unfold bud_le in *; destruct b1 as [a1|]; [lia|exact I6] | discriminate].
+          -- injection H as <- <- <- <- <- <-. do 5 (split; [lia|]). split; [cbn; lia | discriminate].
       + specialize (IH _ _ _ _ _ _ _ _ _ _ _ H). rewrite insert_at_length in IH. destruct IH as [I1 [I2 [I3 [I4 [I5 [I6 I7]]]]]].
         do 5 (split; [lia|]). split; [exact I6 | exact I7].
   Qed.
@@ -133,6 +138,7 @@ Section RuleProofs.
     unfold RuleModel.do_item. destruct (do_inserts adv acts l pos hw hp b) as [[[[[la pa] ha] hpa] ba] da] eqn:Ei.
     destruct (do_inserts_measure _ _ _ _ _ _ _ _ _ _ _ _ Ei) as [M1 [M2 [M3 [M4 [M5 _]]]]].
     destruct da; [intros H; discriminate H|].
+    match goal with |- context [match ?t with Some _ => _ | None => _ end] => destruct t as [bb|] end; [|intros H; discriminate H].
     destruct (has_delete acts); intros H Hp; injection H as <- <- <- <- <- <-.
     - match goal with |- context [remove_at ?u pa] => pose proof (remove_at_length u pa) as R end. rewrite upd_length0 in R. specialize (R ltac:(lia)). lia.
     - rewrite upd_length0. lia.
@@ -141,9 +147,8 @@ Section RuleProofs.
     do_item adv r orig dn j acts l pos hw hp None = (l1, pos1, hw1, hp1, dn1, b1, dead) -> dead = false /\ b1 = None.
   Proof.
     unfold RuleModel.do_item. destruct (do_inserts adv acts l pos hw hp None) as [[[[[la pa] ha] hpa] ba] da] eqn:Ei.
-    destruct (do_inserts_measure _ _ _ _ _ _ _ _ _ _ _ _ Ei) as [_ [_ [_ [_ [_ [M6 M7]]]]]]. rewrite (M7 eq_refl).
-    assert (ba = None) as -> by (destruct ba; [destruct M6|reflexivity]).
-    destruct (has_delete acts); intros H; injection H as <- <- <- <- <- <- <-; split; reflexivity.
+    destruct (do_inserts_measure _ _ _ _ _ _ _ _ _ _ _ _ Ei) as [_ [_ [_ [_ [_ [_ M7]]]]]]. destruct (M7 eq_refl) as [-> ->].
+    destruct (tempc r j); destruct (has_delete acts); intros H; injection H as <- <- <- <- <- <- <-; split; reflexivity.
   Qed.
 
   Lemma do_items_measure r orig : forall n dn j acts l pos hw hp l1 pos1 hw1 hp1 b1 dead,
